@@ -69,6 +69,27 @@ struct dropper_sink : sim::sink
 	int m_seen = 0;
 };
 
+// terminal sink: swallows whatever arrives
+struct hole_sink : sim::sink
+{
+	void incoming_packet(sim::aux::packet) override {}
+	std::string label() const override { return "hole"; }
+};
+
+// a sink that answers every packet synchronously with a reply packet sent along its own route
+struct echo_sink : sim::sink
+{
+	echo_sink(World& w, std::string name, std::vector<std::string> route, std::string type, int len, int ovh)
+		: m_w(w), m_name(std::move(name)), m_route(std::move(route)), m_type(std::move(type)), m_len(len), m_ovh(ovh) {}
+	void incoming_packet(sim::aux::packet p) override;
+	std::string label() const override { return m_name; }
+	World& m_w;
+	std::string m_name;
+	std::vector<std::string> m_route;
+	std::string m_type;
+	int m_len, m_ovh;
+};
+
 struct HConfig : sim::configuration
 {
 	explicit HConfig(World& w) : m_w(w) {}
@@ -109,6 +130,9 @@ struct World
 	// per-domain op handlers; return true when the op was recognised
 	bool op_kernel(std::string const& ctx, toks const& op);
 	bool op_net(std::string const& ctx, toks const& op);
+	bool op_inject(std::string const& ctx, toks const& op);
+	sim::aux::packet make_packet(std::vector<std::string> const& route, std::uint64_t id
+		, std::string const& type, int len, int ovh, bool cb, std::string const& from);
 
 	// handler plumbing: every started asynchronous operation has an id h<k>
 	void on_handler(std::string const& h, boost::system::error_code const& ec
